@@ -1,3 +1,4 @@
+import oracle_consumer
 import corr_array
 import oracle_image
 
@@ -21,8 +22,12 @@ def oracle_c02(seed, tier):
     return oracle_image.check_c02(seed, tier)
 
 
+def oracle_consumer_ops(seed, tier):
+    return oracle_consumer.check(seed, tier)
+
+
 def checks(tier):
-    return [corr_getitem, oracle_c02]
+    return [corr_getitem, oracle_c02, oracle_consumer_ops]
 
 
 def replay(payload):
